@@ -62,27 +62,27 @@ theorem tables_are_modelled :
     parameter types, `w` / `gw` worlds with the same stdout and extern events. -/
 theorem compile_preserves (env : Env) (file : AFile) (n0 : Nat) (G : List String)
     (hG : closedOK env file n0 G = true) (P : Prog) (hP : P.fns = file.map AFn.toFn) (f : AFn) (hf : f ∈ file) (hfG : f.name ∈ G)
-    (args : List Val) (gargs : List GVal) (hargs : ArgsRel env args gargs (f.params.map (·.2)))
-    (w : World) (gw : GWorld) (hw : WRel w gw) (fuel : Nat) :
+    (η : Hp) (args : List Val) (gargs : List GVal) (hargs : ArgsRel env η args gargs (f.params.map (·.2)))
+    (w : World) (gw : GWorld) (hw : WRel env η w gw) (fuel : Nat) :
     match Sem.apply fuel P w (.fn f.name) args with
-    | .ok v w' => ∃ m gv gw', callG m (goFilePreSt env file n0).1 gw (.func (fnName f.name)) gargs = .ok gv gw' ∧
-        toGV env v = some gv ∧ WRel w' gw'
-    | .fail (.panic k) w' => ∃ m gw', callG m (goFilePreSt env file n0).1 gw (.func (fnName f.name)) gargs =
-        .fail (.panic k) gw' ∧ WRel w' gw'
+    | .ok v w' => ∃ m η' gv gw', η.le η' ∧ callG m (goFilePreSt env file n0).1 gw (.func (fnName f.name)) gargs = .ok gv gw' ∧
+        toGV env η' v = some gv ∧ WRel env η' w' gw'
+    | .fail (.panic k) w' => ∃ m η' gw', η.le η' ∧ callG m (goFilePreSt env file n0).1 gw (.func (fnName f.name)) gargs =
+        .fail (.panic k) gw' ∧ WRel env η' w' gw'
     | _ => True := by
-  have h := (sim_all (link_of_closed hG hP) fuel).u f hf hfG args gargs w gw hargs hw
+  have h := (sim_all (link_of_closed hG hP) fuel).u f hf hfG η args gargs w gw hargs hw
   revert h
   cases Sem.apply fuel P w (.fn f.name) args with
   | ok v w' =>
-    rintro ⟨gv, gw', hc, h3, _, h5⟩
+    rintro ⟨η1, hle1, gv, gw', hc, h3, _, h5⟩
     obtain ⟨m, hm⟩ := hc.exists
-    exact ⟨m, gv, gw', hm, h3, h5⟩
+    exact ⟨m, η1, gv, gw', hle1, hm, h3, h5⟩
   | fail fl w' =>
     cases fl with
     | panic k =>
-      rintro ⟨gw', hc, h5⟩
+      rintro ⟨η1, hle1, gw', hc, h5⟩
       obtain ⟨m, hm⟩ := hc.exists
-      exact ⟨m, gw', hm, h5⟩
+      exact ⟨m, η1, gw', hle1, hm, h5⟩
     | fuel => intro _; trivial
     | stuck s => intro _; trivial
 
@@ -95,16 +95,16 @@ instance (env : Env) (file : AFile) (n0 : Nat) (f : AFn) : Decidable (InGoFragme
 /-- **T1 for `InGoFragment`** (`G` = the set `goodFns` computes, its closure re-checked) -/
 theorem compile_preserves_fragment (env : Env) (file : AFile) (n0 : Nat) (f : AFn) (hf : f ∈ file)
     (hfrag : InGoFragment env file n0 f) (P : Prog) (hP : P.fns = file.map AFn.toFn)
-    (args : List Val) (gargs : List GVal) (hargs : ArgsRel env args gargs (f.params.map (·.2)))
-    (w : World) (gw : GWorld) (hw : WRel w gw) (fuel : Nat) :
+    (η : Hp) (args : List Val) (gargs : List GVal) (hargs : ArgsRel env η args gargs (f.params.map (·.2)))
+    (w : World) (gw : GWorld) (hw : WRel env η w gw) (fuel : Nat) :
     match Sem.apply fuel P w (.fn f.name) args with
-    | .ok v w' => ∃ m gv gw', callG m (goFilePreSt env file n0).1 gw (.func (fnName f.name)) gargs = .ok gv gw' ∧
-        toGV env v = some gv ∧ WRel w' gw'
-    | .fail (.panic k) w' => ∃ m gw', callG m (goFilePreSt env file n0).1 gw (.func (fnName f.name)) gargs =
-        .fail (.panic k) gw' ∧ WRel w' gw'
+    | .ok v w' => ∃ m η' gv gw', η.le η' ∧ callG m (goFilePreSt env file n0).1 gw (.func (fnName f.name)) gargs = .ok gv gw' ∧
+        toGV env η' v = some gv ∧ WRel env η' w' gw'
+    | .fail (.panic k) w' => ∃ m η' gw', η.le η' ∧ callG m (goFilePreSt env file n0).1 gw (.func (fnName f.name)) gargs =
+        .fail (.panic k) gw' ∧ WRel env η' w' gw'
     | _ => True := by
   simp only [InGoFragment, inGoFragment, Bool.and_eq_true] at hfrag
-  exact compile_preserves env file n0 _ hfrag.1 P hP f hf (by simpa using hfrag.2) args gargs hargs w gw hw fuel
+  exact compile_preserves env file n0 _ hfrag.1 P hP f hf (by simpa using hfrag.2) η args gargs hargs w gw hw fuel
 
 /-- **T1, whole program** (the shape `Props/C01pipe.lean` composes with): when the entry `main`
     (no parameters) is in the fragment, every definite `Sem.run` of the ANF program is the `runGo`
@@ -122,12 +122,12 @@ theorem compile_preserves_run (env : Env) (file : AFile) (n0 : Nat) (G : List St
     rw [funcs_goFilePre]; simp
   have hnd : ((goFilePreSt env file n0).1.funcs.map (·.name)).Nodup := by
     simp only [closedOK, fileOK, Bool.and_eq_true] at hG
-    exact of_decide_eq_true hG.1.1.1.1.1.1.1
+    exact of_decide_eq_true hG.1.1.1.1.1.1.1.1
   have hmainFind : (goFilePreSt env file n0).1.findFunc "main" = some mainFn := by
     have := find?_of_nodup (fun g : GFunc => g.name) _ hnd _ hmainMem
     simpa [GFile.findFunc, mainFn] using this
-  have hsim := (sim_all hl fuel).u f hf (hname ▸ hfG) [] [] { eager := eager } { eager := eager, capPolicy := 0 }
-    (by rw [hps]; trivial) ⟨rfl, rfl⟩
+  have hsim := (sim_all hl fuel).u f hf (hname ▸ hfG) {} [] [] { eager := eager } { eager := eager, capPolicy := 0 }
+    (by rw [hps]; trivial) (WRel.init env eager 0)
   rw [hname] at hsim
   have hfn : fnName "main" = "main0" := by simp [fnName, isEntry]
   rw [hfn] at hsim
@@ -148,15 +148,15 @@ theorem compile_preserves_run (env : Env) (file : AFile) (n0 : Nat) (G : List St
   generalize hap : Sem.apply fuel P { eager := eager } (.fn "main") [] = r at hsim hdef ⊢
   cases r with
   | ok v w' =>
-    obtain ⟨gv, gw', hc, _, _, h5⟩ := hsim
+    obtain ⟨η1, _, gv, gw', hc, _, _, h5⟩ := hsim
     obtain ⟨m, hm⟩ := ((hwrap _ hc).1 gv gw' rfl).exists
-    exact ⟨m, by rw [hm]; simp only [h5.1, h5.2]⟩
+    exact ⟨m, by rw [hm]; simp only [h5.out, h5.externs]⟩
   | fail fl w' =>
     cases fl with
     | panic k =>
-      obtain ⟨gw', hc, h5⟩ := hsim
+      obtain ⟨η1, _, gw', hc, h5⟩ := hsim
       obtain ⟨m, hm⟩ := ((hwrap _ hc).2 _ gw' rfl).exists
-      exact ⟨m, by rw [hm]; simp only [h5.1, h5.2]⟩
+      exact ⟨m, by rw [hm]; simp only [h5.out, h5.externs]⟩
     | fuel =>
       simp only [Sem.failStr] at hdef
       rcases hdef with hd | ⟨k, hd⟩
@@ -174,26 +174,26 @@ theorem compile_preserves_run (env : Env) (file : AFile) (n0 : Nat) (G : List St
     fragment under the context `Γ` (and `K`: the variables whose enum variant an enclosing `match` arm
     fixed), the environments and worlds are related, the Go names `S` is about to declare are new,
     the assignment target is a declared Go variable -/
-structure Ready (env : Env) (file : AFile) (G : List String) (Bad : List String) (m : Mode) (st : St) (e : AExpr)
+structure Ready (env : Env) (η : Hp) (file : AFile) (G : List String) (Bad : List String) (m : Mode) (st : St) (e : AExpr)
     (Γ : Ctx) (K : KCtx) (ρ : Sem.Env) (w : World) (gρ : GEnv) (gw : GWorld) : Prop where
   frag : fragA env file G Γ K e = true
-  envs : EnvRel env Γ ρ gρ
+  envs : EnvRel env η Γ ρ gρ
   known : KRel K ρ
-  worlds : WRel w gw
+  worlds : WRel env η w gw
   names : GInv Bad (compileA env m st e).1 gρ
   target : TgtOK m Γ gρ (aTy e)
   blank : "_" ∈ Bad
-  callees : ∀ x, x ∈ calleesA e → vn x ∈ Bad
+  callees : ∀ x, x ∈ calleesA e → x ∈ Bad
 
 /-- **T1, statement level**: the statements `compile_aexpr_effect` / `compile_aexpr_assign` emit for
     an ANF expression of the fragment reproduce every definite `Sem.eval` run of it: same world, and
     in assign mode the target variable holds the corresponding value afterwards (`Concl`). -/
-theorem compile_stmts_preserve (env : Env) (file : AFile) (n0 : Nat) (G : List String)
+theorem compile_stmts_preserve (env : Env) (η : Hp) (file : AFile) (n0 : Nat) (G : List String)
     (hG : closedOK env file n0 G = true) (P : Prog) (hP : P.fns = file.map AFn.toFn) (Bad : List String) (m : Mode) (st : St) (e : AExpr) (Γ : Ctx) (K : KCtx) (ρ : Sem.Env)
-    (w : World) (gρ : GEnv) (gw : GWorld) (h : Ready env file G Bad m st e Γ K ρ w gρ gw) (fuel : Nat) :
-    Concl env (goFilePreSt env file n0).1 (compileA env m st e).1 m gρ gw (aTy e)
+    (w : World) (gρ : GEnv) (gw : GWorld) (h : Ready env η file G Bad m st e Γ K ρ w gρ gw) (fuel : Nat) :
+    Concl env η (goFilePreSt env file n0).1 (compileA env m st e).1 m gρ gw (aTy e)
       (Sem.eval fuel P ρ w e.toExpr) :=
-  (sim_all (link_of_closed hG hP) fuel).a m st e Γ K ρ w gρ gw Bad h.frag h.envs h.known h.worlds h.names h.target h.blank h.callees
+  (sim_all (link_of_closed hG hP) fuel).a m st e η Γ K ρ w gρ gw Bad h.frag h.envs h.known h.worlds h.names h.target h.blank h.callees
 
 /-- **T3 `compile_order`**: the Go statements of `let x = v in body` are those of `v`
     (`letPrefix`, which does not depend on `body`) followed by those of `body`; the first part runs
@@ -201,18 +201,18 @@ theorem compile_stmts_preserve (env : Env) (file : AFile) (n0 : Nat) (G : List S
     of `x` — before any statement of `body`, and when `v` panics the block panics there, whatever
     follows.  So successive `let`s perform their effects in ANF order and a failure cuts off
     everything after it. -/
-theorem compile_order (env : Env) (file : AFile) (n0 : Nat) (G : List String)
+theorem compile_order (env : Env) (η : Hp) (file : AFile) (n0 : Nat) (G : List String)
     (hG : closedOK env file n0 G = true) (P : Prog) (hP : P.fns = file.map AFn.toFn) (Bad : List String) (m : Mode) (st : St) (x : String) (v : CExpr)
     (body : AExpr) (ty : Ty) (Γ : Ctx) (K : KCtx) (ρ : Sem.Env) (w : World) (gρ : GEnv) (gw : GWorld)
-    (h : Ready env file G Bad m st (.letE x v body ty) Γ K ρ w gρ gw) (fuel : Nat) :
+    (h : Ready env η file G Bad m st (.letE x v body ty) Γ K ρ w gρ gw) (fuel : Nat) :
     (compileA env m st (.letE x v body ty)).1 =
         letPrefix env st x v ++ (compileA env m (letBodySt env st x v) body).1 ∧
     (match Sem.eval fuel P ρ w v.toExpr with
-     | .ok vv w1 => ∃ env1 gv gw1,
-         BlockS (goFilePreSt env file n0).1 gρ gw (letPrefix env st x v) (.ok (env1, .normal) gw1) ∧ WRel w1 gw1 ∧
-         lookupG env1 (vn x) = some gv ∧ toGV env vv = some gv
-     | .fail (.panic k) w1 => ∀ rest, ∃ gw1,
-         BlockS (goFilePreSt env file n0).1 gρ gw (letPrefix env st x v ++ rest) (.fail (.panic k) gw1) ∧ WRel w1 gw1
+     | .ok vv w1 => ∃ η1, η.le η1 ∧ ∃ env1 gv gw1,
+         BlockS (goFilePreSt env file n0).1 gρ gw (letPrefix env st x v) (.ok (env1, .normal) gw1) ∧ WRel env η1 w1 gw1 ∧
+         lookupG env1 (vn x) = some gv ∧ toGV env η1 vv = some gv
+     | .fail (.panic k) w1 => ∀ rest, ∃ η1, η.le η1 ∧ ∃ gw1,
+         BlockS (goFilePreSt env file n0).1 gρ gw (letPrefix env st x v ++ rest) (.fail (.panic k) gw1) ∧ WRel env η1 w1 gw1
      | _ => True) :=
   ⟨compileA_let env m st x v body ty,
    let_order (sim_all (link_of_closed hG hP) fuel).v (sim_all (link_of_closed hG hP) fuel).c m st x v body ty Γ K ρ w gρ gw Bad
@@ -328,6 +328,29 @@ private def exBadGet : AFn :=
   { name := "bad", params := [("o/0", tOpt)], ret := t32,
     body := .ret (.cget (.var "o/0" tOpt) (.enum "Opt" "Some" 1) 0 t32) }
 example : ¬ InGoFragment envE [exBadGet] 0 exBadGet := by unfold InGoFragment; decide +kernel
+
+/-- references are inside: `fn bump(r: Ref[int32]) { ref_set(r, ref_get(r) + 41) }`, and a `main` that allocates a cell,
+    passes it on and reads it back (the `Sem` store against the Go heap: `WRel`) -/
+private def tRef : Ty := .ref t32
+private def exBump : AFn :=
+  { name := "bump", params := [("r/0", tRef)], ret := .unit,
+    body :=
+      .letE "t1" (.call (.var "ref_get" (.func [tRef] t32)) [.var "r/0" tRef] t32)
+      (.letE "t2" (.bin .add (.var "t1" t32) (litI 41) t32)
+      (.ret (.call (.var "ref_set" (.func [tRef, t32] .unit)) [.var "r/0" tRef, .var "t2" t32] .unit)) .unit) .unit }
+private def exMainR : AFn :=
+  { name := "main", params := [], ret := .unit,
+    body :=
+      .letE "r/1" (.call (.var "ref" (.func [t32] tRef)) [litI 1] tRef)
+      (.letE "u/2" (.call (.var "bump" (.func [tRef] .unit)) [.var "r/1" tRef] .unit)
+      (.letE "t3" (.call (.var "ref_get" (.func [tRef] t32)) [.var "r/1" tRef] t32)
+      (.letE "t4" (.call (.var "int32_to_string" (.func [t32] .string)) [.var "t3" t32] .string)
+      (.ret (.call (.var "string_println" (.func [.string] .unit)) [.var "t4" .string] .unit)) .unit) .unit) .unit) .unit }
+private def exFileR : AFile := [exBump, exMainR]
+example : InGoFragment {} exFileR 0 exBump ∧ InGoFragment {} exFileR 0 exMainR := by
+  constructor <;> (unfold InGoFragment; decide +kernel)
+example : (Sem.run 200 (progOf exFileR)).status = "ok" ∧ (Sem.run 200 (progOf exFileR)).out = "42\n" := by
+  decide +kernel
 
 /-- a function that builds a tuple is outside the fragment (the model still compiles it: the tie
     covers it, the theorem does not) -/
